@@ -184,6 +184,12 @@ def sample_param_change(rng, cfg):
                             ["max_depth", choice(rng, [None, 1, 3])], ["random_state", rng.randrange(10000)]])
     opts = [["max_iter", rng.randint(1, 3)], ["learning_rate", choice(rng, [1e-3, 1e-2, 0.1])],
             ["solver", choice(rng, ["adam", "sgd"])], ["random_state", rng.randrange(10000)]]
+    if FAMILIES[cfg["family"]].get("douglas"):
+        d = cfg["d"]
+        mask = [rng.random() < 0.6 for _ in range(d)]
+        if sum(mask) == 0 or sum(mask) > 5:
+            mask = [i < min(d, 3) for i in range(d)]
+        opts += [["feature_mask", mask]] * 2
     if FAMILIES[cfg["family"]]["batched"]:
         opts.append(["batch_size", choice(rng, [None, 1, 2, 5])])
     if FAMILIES[cfg["family"]].get("sparse"):
@@ -427,6 +433,13 @@ def execute(record):
         def check_params(opname):
             fresh = build(copy.deepcopy(user_params))
             want = fresh.get_params()
+            if not is_kauri:
+                # what the USER passed, not what a constructor made of it (a constructor that normalises a value breaks
+                # the get_params/set_params/clone contract although two constructed objects agree with each other)
+                raw = build_params(dict(cfg, params=copy.deepcopy(user_params)), log)
+                for k, v in raw.items():
+                    if k in want:
+                        want[k] = v
             got = model.get_params()
             for k in sorted(set(want) | set(got)):
                 if k not in got or k not in want or not equivalent(got[k], want[k]):
@@ -488,7 +501,10 @@ def execute(record):
                         res.probe("read_only_calls_checked")
                     elif kind == "set_params":
                         name, val = op["change"]
-                        model.set_params(**{name: val})
+                        real = val
+                        if not is_kauri and name in ("feature_mask", "gemini", "kernel", "base_kernel"):
+                            real = build_params(dict(cfg, params={name: copy.deepcopy(val)}), log)[name]
+                        model.set_params(**{name: real})
                         user_params[name] = val
                         if name in ("kernel", "metric", "base_kernel") and (name + "_params") in model.get_params():
                             model.set_params(**{name + "_params": None})
@@ -502,7 +518,15 @@ def execute(record):
                                 res.violate(f"C12:clone_roundtrip:{k}", {"how": "set_params(**get_params())"})
                     elif kind == "clone":
                         from sklearn.base import clone
-                        new = clone(model)
+                        try:
+                            new = clone(model)
+                        except (SimFault, SimBudget):
+                            raise
+                        except Exception as e:
+                            if is_harness_frame(e):
+                                raise
+                            res.violate("C12:clone_roundtrip:raised:" + type(e).__name__, {"msg": str(e)[:200], "history": done})
+                            raise
                         gp, gn = model.get_params(), new.get_params()
                         for k in sorted(set(gp) | set(gn)):
                             if k not in gn or k not in gp or not equivalent(gp[k], gn[k]):
